@@ -8,7 +8,11 @@ Tie: (S1) random core programs in which functions are made generic mechanically 
 type parameter, call sites get explicit type arguments): the generic program and the original (= its
 hand-specialised twin) must behave identically, and like the reference semantics CbRef; (S2) templates of generic
 functions / structs instantiated at all tuples over {tiny, short, int, long, bool, char, string, struct} in several
-call orders vs the mechanically monomorphised twin.
+call orders vs the mechanically monomorphised twin (incl. generic functions with static locals calling generic and
+non-generic void helpers that have their own statics); (S3) generic aggregates vs the hand-specialised twin: an
+interface implemented for a generic struct (methods with T parameters / locals / arithmetic), generic constructor and
+destructor, a generic enum with payload matched in main and in a generic function, generic structs declared at the
+type parameters inside a generic function (with and without the same instantiation occurring in main).
 """
 import itertools, json, os, re
 import common, gen_core, refrun
@@ -113,9 +117,18 @@ TEMPLATES = [
      lambda f, ts, k: "    %s(%s);\n" % (f, SAMPLES[ts[0]][k % 3])),
     ("twice", 1, NUMERIC, "T twice<T>(T v) {\n    return ident<T>(v) + ident<T>(v);\n}\n",
      lambda f, ts, k: "    println(%s(%d));\n" % (f, 20 + k)),
+    ("note", 1, None, "void note<T>(T v) {\n    static int seen = 0;\n    seen++;\n    println(\"note\", seen);\n}\n",
+     lambda f, ts, k: "    %s(%s);\n" % (f, SAMPLES[ts[0]][k % 3])),
+    ("tally", 1, None, "int tally<T>(T v) {\n    static int calls = 0;\n    note<T>(v);\n    calls = calls + 10;\n    return calls;\n}\n",
+     lambda f, ts, k: "    println(%s(%s));\n" % (f, SAMPLES[ts[0]][k % 3])),
+    ("tally2", 1, None, "int tally2<T>(T v) {\n    static int calls = 0;\n    plain_note(1);\n    calls = calls + 10;\n    return calls;\n}\n",
+     lambda f, ts, k: "    println(%s(%s));\n" % (f, SAMPLES[ts[0]][k % 3])),
     ("sw", 1, NUMERIC, "int sw<T>(T v) {\n    switch (v) {\n        case (1) {\n            return 10;\n        }\n        case (2) {\n            return 20;\n        }\n        else {\n            return 30;\n        }\n    }\n    return 0;\n}\n",
      lambda f, ts, k: "    println(%s(%d));\n" % (f, 1 + k % 3)),
 ]
+
+
+DEPS = {"twice": "ident", "tally": "note"}      # generic function -> the generic function its body calls
 
 
 def pr(t, e):
@@ -142,8 +155,9 @@ def template_case(r, quick):
     """one program: 1-3 templates, several instantiations each, calls in a random order"""
     tpls = [r.choice(TEMPLATES) for _ in range(r.range(1, 3))]
     names = {t[0] for t in tpls}
-    if "twice" in names:
-        tpls.append(TEMPLATES[0])
+    for n_, d_ in DEPS.items():
+        if n_ in names:
+            tpls.append([t for t in TEMPLATES if t[0] == d_][0])
     seen = set()
     tpls = [t for t in tpls if not (t[0] in seen or seen.add(t[0]))]
     uses = []
@@ -164,15 +178,14 @@ def template_case(r, quick):
         order[i], order[j] = order[j], order[i]
     uses = [uses[i] for i in order]
     by_name = {t[0]: t for t in TEMPLATES}
-    pre = "struct P { int x; int y; };\n"
+    pre = "struct P { int x; int y; };\nvoid plain_note(int v) {\n    static int seen = 0;\n    seen = seen + v;\n    println(\"plain\", seen);\n}\n"
     gen_defs = "".join(by_name[n][3] for n in dict.fromkeys(t[0] for t in tpls))
     insts = list(dict.fromkeys((n, tuple(ts)) for n, ts in uses))
-    if any(n == "twice" for n, _ in insts):
-        for n, ts in list(insts):
-            if n == "twice" and ("ident", ts) not in insts:
-                insts.append(("ident", ts))
+    for n, ts in list(insts):
+        if n in DEPS and (DEPS[n], ts) not in insts:
+            insts.append((DEPS[n], ts))
     # monomorphised definitions, callees first
-    insts_sorted = sorted(insts, key=lambda it: it[0] == "twice")
+    insts_sorted = sorted(insts, key=lambda it: it[0] in DEPS)
     mono_defs = "".join(mono_text(by_name[n][3], n, by_name[n][1], list(ts)) for n, ts in insts_sorted)
     gmain, mmain = [], []
     for k, (n, ts) in enumerate(uses):
@@ -221,6 +234,137 @@ def struct_case(r):
     gsrc = GSTRUCT + "int main() {\n" + "".join(g) + "".join(tail) + "    println(\"END\");\n    return 0;\n}\n"
     msrc = "".join(mdefs.values()) + "int main() {\n" + "".join(m) + "".join(tail) + "    println(\"END\");\n    return 0;\n}\n"
     return gsrc, msrc, ["%s<%s>" % (n, ",".join(ts)) for n, ts in uses]
+
+
+# ---- S3: generic aggregates (struct + impl via interface, constructor/destructor, enum + match, generic structs used
+#          inside generic functions) vs the hand-specialised twin
+AGG_VALUES = {"tiny": ["50", "-60", "7"], "short": ["10000", "-12000", "300"], "int": ["1000000000", "-900000000", "70000"],
+              "long": ["3000000000", "-4000000000", "5"], "string": ['"ab"', '"x"', '"hello"']}
+AGG_DOM = ["tiny", "short", "int", "long", "string"]
+
+
+def M(name, ts):
+    return mono_name(name, ts)
+
+
+def agg_holder(r):
+    """interface Holder<T> implemented for Box<T>; methods with T locals, T arithmetic, a counter member"""
+    gdefs = ("interface Holder<T> {\n    T get();\n    void put(T v);\n    T twice();\n    int count();\n};\n"
+             "struct Box<T> {\n    T value;\n    int n;\n};\n"
+             "impl Holder<T> for Box<T> {\n    T get() {\n        return self.value;\n    }\n"
+             "    void put(T v) {\n        self.value = v;\n        self.n = self.n + 1;\n    }\n"
+             "    T twice() {\n        T t = self.value;\n        t = t + t;\n        return t;\n    }\n"
+             "    int count() {\n        return self.n;\n    }\n};\n")
+
+    def mono(x):
+        return (gdefs.replace("Holder<T>", M("Holder", [x])).replace("Box<T>", M("Box", [x]))
+                .replace("T ", x + " ").replace("(T ", "(" + x + " "))
+    types = [r.choice(AGG_DOM) for _ in range(r.range(2, 4))]
+    g, m = [], []
+    for k, x in enumerate(types):
+        for (ty, out) in (("Box<%s>" % x, g), (M("Box", [x]), m)):
+            out.append("    %s b%d;\n    b%d.n = 0;\n" % (ty, k, k))
+    ops = []
+    for _ in range(r.range(3, 8)):
+        k = r.below(len(types))
+        if r.chance(40):
+            ops.append("    b%d.put(%s);\n" % (k, r.choice(AGG_VALUES[types[k]])))
+        else:
+            ops.append("    b%d.put(%s);\n    println(b%d.get(), b%d.twice(), b%d.count());\n" % (k, r.choice(AGG_VALUES[types[k]]), k, k, k))
+    tail = "".join("    println(b%d.get(), b%d.count());\n" % (k, k) for k in range(len(types)))
+    return gdefs, "".join(mono(x) for x in dict.fromkeys(types)), "".join(g) + "".join(ops) + tail, \
+        "".join(m) + "".join(ops) + tail, ["holder<%s>" % x for x in types]
+
+
+def agg_ctor(r):
+    """impl Box<T> with constructor / destructor"""
+    gdefs = ("struct Cell<T> {\n    T value;\n    int tag;\n};\n"
+             "impl Cell<T> {\n    self(T v, int tag) {\n        T t = v;\n        self.value = t;\n        self.tag = tag;\n"
+             "        println(\"ctor\", t, tag);\n    }\n    ~self() {\n        println(\"dtor\", self.value, self.tag);\n    }\n}\n")
+
+    def mono(x):
+        return gdefs.replace("Cell<T>", M("Cell", [x])).replace("T ", x + " ").replace("(T ", "(" + x + " ")
+    types = [r.choice(AGG_DOM) for _ in range(r.range(2, 4))]
+    g, m = [], []
+    for k, x in enumerate(types):
+        # (a leading '-' in the first constructor argument of a NON-generic struct is a parse error on the pinned tree,
+        #  which would break the twin, not the generic program: constructor arguments are non-negative here)
+        val = r.choice([w for w in AGG_VALUES[x] if not w.startswith("-")])
+        if r.chance(30):
+            g.append("    {\n        Cell<%s> c%d(%s, %d);\n        println(c%d.value);\n    }\n" % (x, k, val, k, k))
+            m.append("    {\n        %s c%d(%s, %d);\n        println(c%d.value);\n    }\n" % (M("Cell", [x]), k, val, k, k))
+        else:
+            g.append("    Cell<%s> c%d(%s, %d);\n    println(c%d.value);\n" % (x, k, val, k, k))
+            m.append("    %s c%d(%s, %d);\n    println(c%d.value);\n" % (M("Cell", [x]), k, val, k, k))
+    return gdefs, "".join(mono(x) for x in dict.fromkeys(types)), "".join(g), "".join(m), ["ctor<%s>" % x for x in types]
+
+
+def agg_enum(r):
+    """generic enum with a payload, matched in main and inside a generic function"""
+    gdefs = ("enum Maybe<T> {\n    Just(T),\n    Nothing\n};\n"
+             "int show<T>(Maybe<T> m) {\n    match (m) {\n        Just(v) => {\n            T w = v;\n            println(\"just\", w);\n        }\n"
+             "        Nothing => {\n            println(\"nothing\");\n        }\n    }\n    return 0;\n}\n")
+
+    def mono(x):
+        return (gdefs.replace("show<T>", M("show", [x])).replace("Maybe<T>", M("Maybe", [x])).replace("(T)", "(%s)" % x)
+                .replace("T w", x + " w"))
+    types = [r.choice(AGG_DOM) for _ in range(r.range(2, 4))]
+    g, m = [], []
+    for k, x in enumerate(types):
+        ctor = "Just(%s)" % r.choice(AGG_VALUES[x]) if r.chance(75) else "Nothing"
+        g.append("    Maybe<%s> e%d = Maybe<%s>::%s;\n" % (x, k, x, ctor))
+        m.append("    %s e%d = %s::%s;\n" % (M("Maybe", [x]), k, M("Maybe", [x]), ctor))
+    for _ in range(r.range(2, 5)):
+        k = r.below(len(types))
+        x = types[k]
+        if r.chance(50):
+            g.append("    show<%s>(e%d);\n" % (x, k))
+            m.append("    %s(e%d);\n" % (M("show", [x]), k))
+        else:
+            t = "    match (e%d) {\n        Just(v) => {\n            println(\"main just\", v);\n        }\n        Nothing => {\n            println(\"main nothing\");\n        }\n    }\n" % k
+            g.append(t)
+            m.append(t)
+    return gdefs, "".join(mono(x) for x in dict.fromkeys(types)), "".join(g), "".join(m), ["enum<%s>" % x for x in types]
+
+
+def agg_struct_in_fn(r):
+    """generic structs used at the type parameters inside a generic function; the instantiation may or may not also occur
+    in main"""
+    gdefs = ("struct Slot<T> {\n    T value;\n};\nstruct Duo<A, B> {\n    A a;\n    B b;\n};\n"
+             "U pick<T, U>(T x, U y) {\n    Duo<T, U> d;\n    d.a = x;\n    d.b = y;\n    Slot<U> s;\n    s.value = d.b;\n"
+             "    println(d.a, s.value);\n    return s.value;\n}\n")
+    pairs = [(r.choice(AGG_DOM), r.choice(AGG_DOM)) for _ in range(r.range(1, 3))]
+    if r.chance(50):
+        pairs.append((pairs[0][1], pairs[0][0]))
+    mdefs = {}
+    g, m = [], []
+    pre = r.chance(50)
+    for k, (x, y) in enumerate(pairs):
+        mdefs[M("Slot", [y])] = "struct %s {\n    %s value;\n};\n" % (M("Slot", [y]), y)
+        mdefs[M("Duo", [x, y])] = "struct %s {\n    %s a;\n    %s b;\n};\n" % (M("Duo", [x, y]), x, y)
+    for k, (x, y) in enumerate(dict.fromkeys(pairs)):
+        mdefs["fn" + M("pick", [x, y])] = (
+            "%s %s(%s x, %s y) {\n    %s d;\n    d.a = x;\n    d.b = y;\n    %s s;\n    s.value = d.b;\n    println(d.a, s.value);\n    return s.value;\n}\n"
+            % (y, M("pick", [x, y]), x, y, M("Duo", [x, y]), M("Slot", [y])))
+    for k, (x, y) in enumerate(pairs):
+        if pre:
+            g.append("    Duo<%s, %s> pd%d;\n    Slot<%s> ps%d;\n" % (x, y, k, y, k))
+            m.append("    %s pd%d;\n    %s ps%d;\n" % (M("Duo", [x, y]), k, M("Slot", [y]), k))
+        vx, vy = r.choice(AGG_VALUES[x]), r.choice(AGG_VALUES[y])
+        g.append("    println(pick<%s, %s>(%s, %s));\n" % (x, y, vx, vy))
+        m.append("    println(%s(%s, %s));\n" % (M("pick", [x, y]), vx, vy))
+    return gdefs, "".join(mdefs.values()), "".join(g), "".join(m), ["structfn%s<%s,%s>" % ("+pre" if pre else "", x, y) for x, y in pairs]
+
+
+AGGS = [("holder", agg_holder), ("ctor", agg_ctor), ("enum", agg_enum), ("structfn", agg_struct_in_fn)]
+
+
+def aggregate_case(r):
+    name, fn = r.choice(AGGS)
+    gdefs, mdefs, gmain, mmain, uses = fn(r)
+    gsrc = gdefs + "int main() {\n" + gmain + "    println(\"END\");\n    return 0;\n}\n"
+    msrc = mdefs + "int main() {\n" + mmain + "    println(\"END\");\n    return 0;\n}\n"
+    return gsrc, msrc, uses, name
 
 
 def main(a):
@@ -312,6 +456,22 @@ def main(a):
             {"generic_program": gsrc, "twin_program": msrc, "instantiations": uses, "generic_stdout": o1[0], "generic_exit_class": o1[1],
              "generic_stderr": o1[2][-300:], "twin_stdout": o2[0], "twin_exit_class": o2[1]},
             cells=["tpl:" + u.split("<")[0] for u in uses] + ["ty:" + t for u in uses for t in u[u.index("<") + 1:-1].split(",")])
+    # ---- S3: generic aggregates
+    n3 = 120 if quick else 12000
+    cases = [aggregate_case(r) for _ in range(n3)]
+    og = common.run_programs(exe, [c[0] for c in cases], timeout=10)
+    ot = common.run_programs(exe, [c[1] for c in cases], timeout=10)
+    dist["aggregates"] = len(cases)
+    for (gsrc, msrc, uses, name), o1, o2 in zip(cases, og, ot):
+        nontrivial.add(("s3", tuple(uses), hash(gsrc) % 1000))
+        if o1[1] == o2[1] and o1[0] == o2[0]:
+            continue
+        d = first_diff(o2[0], o1[0])
+        report("aggregates", "uses %s: generic differs from the hand-specialised twin: twin %r vs generic %r (%s / %s)" % (
+            uses, d[1] if d else "", d[2] if d else "", o2[1], o1[1]),
+            {"generic_program": gsrc, "twin_program": msrc, "instantiations": uses, "generic_stdout": o1[0], "generic_exit_class": o1[1],
+             "generic_stderr": o1[2][-300:], "twin_stdout": o2[0], "twin_exit_class": o2[1]},
+            cells=["agg:" + u.split("<")[0] for u in uses])
     for key, whats in sorted(census.items(), key=lambda kv: str(kv[0])):
         common.log("CENSUS %s x%d: %s" % (key, len(whats), whats[0][:300]))
     for f in findings:
@@ -326,9 +486,13 @@ def main(a):
                 "function templates (identity, selection, ?:, if/else, for, while, local arrays, static counter, arithmetic, cast, "
                 "interpolation, nested generic call, switch) and generic structs Box<T> / Pair<A,B>, instantiated at random "
                 "tuples over {tiny, short, int, long, bool, char, string, struct P} incl. swapped tuples, repeated uses, shuffled "
-                "call order, vs the mechanically monomorphised twin. non-trivial = distinct program / use sequence",
+                "call order, vs the mechanically monomorphised twin. S3: four families of generic aggregates (impl of a generic "
+                "interface for a generic struct, generic constructor / destructor, generic enum + match, generic structs inside "
+                "a generic function) at 2-4 type arguments over {tiny, short, int, long, string} with values that fit the "
+                "instantiation's own type only, random operation sequences, vs the hand-specialised twin. non-trivial = distinct "
+                "program / use sequence",
         "exhaustive": False})
-    v.assumptions += ["generic enums and generic impl blocks are exercised only through the built-in Option/Result (C13) — not generated here",
+    v.assumptions += ["S3 covers generic impl blocks (interface methods, constructor / destructor), generic enums with a payload and generic structs inside generic functions through four families of templates, not arbitrary bodies",
                       "the twin of S2 is produced by the harness's textual substitution (trusted)"]
     return v.finish()
 
